@@ -258,6 +258,14 @@ func (s *Cron) Add(j *Job) error {
 	})
 }
 
+// timeKeyFormat is the rendering of times in the keys of the time
+// index, which are compared as bytes.  It has a fixed width.
+// RFC3339Nano drops trailing zeros: a time on the whole second
+// ("...:05Z") sorted after every other time in that second
+// ("...:05.3Z"), so a cron job was found due only in the following
+// second, and an every-second job fired every other second.
+const timeKeyFormat = "2006-01-02T15:04:05.000000000Z07:00"
+
 func (s *Cron) update(j *Job) (func(*bolt.Tx) error, error) {
 	part := s.Partition(j.Account)
 	jobs := "jobs" + part
@@ -265,7 +273,7 @@ func (s *Cron) update(j *Job) (func(*bolt.Tx) error, error) {
 	oldTid := j.TId
 
 	next := j.at
-	ts := next.Format(time.RFC3339Nano)
+	ts := next.Format(timeKeyFormat)
 	later := next.Sub(time.Now().UTC())
 	log.Printf("Cron.update %s to %s (%v) evict=%v", j.aid, ts, later, j.Evict)
 
@@ -383,7 +391,7 @@ func (s *Cron) work(part string) func(tx *bolt.Tx) error {
 		c := tx.Bucket([]byte("time" + part)).Cursor()
 
 		min := []byte("")
-		max := []byte(time.Now().UTC().Format(time.RFC3339Nano))
+		max := []byte(time.Now().UTC().Format(timeKeyFormat))
 		limit := 10
 
 		for k, v := c.Seek(min); k != nil && bytes.Compare(k, max) <= 0; k, v = c.Next() {
